@@ -1,6 +1,7 @@
 package main
 
 import (
+	"path/filepath"
 	"flag"
 	"runtime/debug"
 	"runtime/pprof"
@@ -50,6 +51,19 @@ func main() {
 	w, err := loadWorld(*repo, nil)
 	if err != nil {
 		fmt.Fprintln(os.Stderr, "govc: engine error:", err)
+		if *prop != "" && *evid != "" {
+			// the contracts no longer type-check against the code (they do on the unchanged tree): a function or
+			// field a clause names has changed; nothing can be generated, so nothing is discharged
+			os.MkdirAll(*replayDir, 0755)
+			path := filepath.Join(*replayDir, *prop+"-contracts__do_not_apply.json")
+			writeJSON(path, map[string]interface{}{"property": *prop, "obligation": "contracts/apply-to-code", "kind": "binding",
+				"solver_status": "contract-does-not-apply", "reproduced_on_real_code": false,
+				"note": "the contracts in /repo/verif_contracts.go no longer bind to /repo's code; no obligation could be generated: " + err.Error()})
+			writeJSON(*evid, map[string]interface{}{"property_id": *prop, "tier": *tier, "seed": seedFromEnv(), "level": "proof", "wall_s": round2(time.Since(t0).Seconds()), "violations": 1,
+				"coverage": map[string]interface{}{"obligations": 0, "discharged": 0, "not_discharged": 1, "engine_error": err.Error()}, "assumptions": baseAssumptions})
+			fmt.Printf("VIOLATION property=%s replay=%s obligation=contracts/apply-to-code status=contract-does-not-apply no-failing-input-found\n", *prop, path)
+			os.Exit(1)
+		}
 		os.Exit(2)
 	}
 	if err := w.dumpTables(); err != nil {
